@@ -318,10 +318,16 @@ func (h *harness) execFailing(s *session, st *stmt) {
 	h.abort(s, "failed-statement")
 }
 
-func (h *harness) noteCommit(by *session) {
+func (h *harness) noteCommit(by *session, ddl bool) {
 	for _, o := range h.sess {
 		if o != by && o.st != nil {
 			o.foreignCommits++
+			if ddl {
+				o.st.foreignDDL = true
+				if len(o.st.created)+len(o.st.altered) > 0 {
+					h.c.Label("own-ddl-objects-unusable-after-foreign-ddl-commit")
+				}
+			}
 		}
 	}
 }
@@ -347,7 +353,7 @@ func (h *harness) end(s *session, how string) {
 				h.c.Label("commit-with-ddl")
 			}
 			s.st, s.tx = nil, nil
-			h.noteCommit(s)
+			h.noteCommit(s, len(st.ddl) > 0)
 		case errors.Is(err, store.ErrTxReadConflict) && s.foreignCommits > 0:
 			if !s.tx.Closed() {
 				h.failf("s%d: transaction still open after failed COMMIT", s.id)
@@ -407,7 +413,7 @@ func (h *harness) autocommit(s *session) {
 	h.checkCounters(fmt.Sprintf("s%d(auto) %s", s.id, d.sql), ctxs[0], st)
 	h.committed.apply(st)
 	h.c.Label("auto-" + d.label)
-	h.noteCommit(s)
+	h.noteCommit(s, false)
 	h.audit("after autocommit", false)
 }
 
@@ -481,7 +487,7 @@ func (h *harness) script(s *session) {
 		h.checkCounters(fmt.Sprintf("s%d(script)", s.id), ctxs[0], st)
 		h.committed.apply(st)
 		h.c.Label("script-commit")
-		h.noteCommit(s)
+		h.noteCommit(s, len(st.ddl) > 0)
 	}
 	h.audit("after script", false)
 }
@@ -628,7 +634,7 @@ func TestTxPrograms(t *testing.T) {
 	if vk.Thorough() {
 		maxSteps = 40
 	}
-	vk.Check(t, 480, 24000, func(rt *rapid.T, c *vk.Case) {
+	vk.Check(t, 480, 20000, func(rt *rapid.T, c *vk.Case) {
 		dir := vk.Dir()
 		defer os.RemoveAll(dir)
 		db, err := sqlgen.Open(dir, sqlgen.DBOpts{})
